@@ -77,7 +77,16 @@ def inserting : Pc → Sid → Prop
   | .inReg n, x => n.inserting x
   | .openAcq s _ _, x => x = s
   | _, _ => False
+/-- inside `_close_entry` WITHOUT the entry lock (after a failed timed acquire) -/
+def unlocked : Pc → Bool
+  | .inReg n => n.unlocked
+  | .uOpen _ _ | .uRun _ _ => true
+  | _ => false
 end Pc
+
+theorem closeList_unlocked (l : List Sid) : (closeList l).unlocked = false := by cases l <;> rfl
+theorem afterClose_unlocked (s : Sid) (c : Cont) : (afterClose s c).unlocked = false := by
+  cases c <;> simp [afterClose, Pc.unlocked, closeList_unlocked]
 
 theorem closeList_holds (l : List Sid) (x : Sid) : (closeList l).holds x = 0 := by
   cases l <;> simp [closeList, Pc.holds, Cont.holds]
@@ -296,6 +305,35 @@ theorem RegOp.attrs {st st1 : St} {p n : Pc} (h : RegOp st p st1 n) :
       afterClose_inserting, closeList_depth, closeList_holds, closeList_dispatching, closeList_closing,
       closeList_atOpen, closeList_inserting]
 
+/-- the continuation of a registry operation is never inside an unlocked close -/
+theorem RegOp.unlocked {st st1 : St} {p n : Pc} (h : RegOp st p st1 n) : n.unlocked = false := by
+  cases h <;> simp [Pc.unlocked, afterClose_unlocked, closeList_unlocked]
+
+/-- no thread runs `_close_entry` without the entry lock (the blocking acquire cannot fail) -/
+def NoU (st : St) : Prop := ∀ t, (st.pc t).unlocked = false
+
+theorem noU_init : NoU ({} : St) := fun _ => rfl
+
+theorem NoU.upd {pc : Tid → Pc} (h : ∀ t, (pc t).unlocked = false) (t : Tid) {p' : Pc} (hp : p'.unlocked = false) :
+    ∀ x, (upd pc t p' x).unlocked = false := by
+  intro x
+  by_cases hx : x = t
+  · subst hx; simpa using hp
+  · rw [upd_other _ _ hx]; exact h x
+
+theorem noU_trans {st st' : St} {l : Label} (h : NoU st) (htr : Trans st l st') : NoU st' := by
+  cases htr with
+  | tick d => exact h
+  | mstep => exact h
+  | @regAcq t st1 next hfree hop =>
+    exact NoU.upd h t (p' := .inReg next) (by simp only [Pc.unlocked]; exact hop.unlocked)
+  | @regRel t next hp ho =>
+    have hn := h t; rw [hp] at hn
+    exact NoU.upd h _ (by simpa [Pc.unlocked] using hn)
+  | @closeStartU t s c hp | @closeEndU t s c hp => have hn := h t; rw [hp] at hn; simp [Pc.unlocked] at hn
+  | entRelClose hp hrel => exact NoU.upd h _ (afterClose_unlocked _ _)
+  | _ => exact NoU.upd h _ (by simp [Pc.unlocked])
+
 structure LockInv (st : St) : Prop where
   reg : RegInv st.reg st.pc
   ent : EntInv st.ent st.pc
@@ -306,8 +344,10 @@ theorem lockInv_init : LockInv ({} : St) := by
   · intro s t; simp [Pc.holds]
   · intro s; exact RLock.wf_free
 
-theorem lockInv_trans {st st' : St} {l : Label} (h : LockInv st) (htr : Trans st l st') : LockInv st' := by
+theorem lockInv_trans {st st' : St} {l : Label} (hn : NoU st) (h : LockInv st) (htr : Trans st l st') :
+    LockInv st' := by
   cases htr with
+  | @closeStartU t s c hp | @closeEndU t s c hp => have := hn t; rw [hp] at this; simp [Pc.unlocked] at this
   | tick d => exact ⟨h.reg, h.ent⟩
   | mstep => exact h
   | reqBegin hp | delBegin hp | openBegin hp | shutBegin hp | rcSweep hp | rcGet hp | rcOpen hp | rcSeal hp
